@@ -74,8 +74,14 @@ def run(ctx):
     mixed = ["replace all 'a' with 'X' find all any", "replace all any with '<' value '>' find all (any = x) maybe x", "find all any replace all any with '' find all any",
              "replace all 'zzz' with 'q' find all any", "replace all (maybe 'a') = x 'b' with x find all at least 1 (any = c) named cs replace all any with ''",
              "replace top 1 any with 'T' find top 2 any replace last 1 any with 'L' find last 1 any"]
+    # names given as strings: loops called "0", "1", "10" (the keys of an iteration table are numbers too), names with quotes, backslashes, blanks, non-ASCII,
+    # each next to sibling variables
+    for nm in ('"0"', '"1"', '"10"', '"a b"', "'q\"uote'", '"back\\\\slash"', '"\xc3\xa9"', '"value"', '"matchNumber"'):
+        mixed.append("find all at least 1 (letter = l) named %s digit = d" % nm)
+        mixed.append("find all at least 1 ((at least 1 letter named %s) = w ' ') named \"0\" (digit = d)" % nm)
+        mixed.append("replace all at least 1 (any = c) named %s with c" % nm)
     cases, meta = [], []
-    for i in range(60 if quick else 6000):
+    for i in range(max(60, len(mixed) + 30) if quick else 6000):
         p = mixed[i] if i < len(mixed) else rng.choice(progs)
         if i >= len(mixed) and rng.random() < 0.3:
             g = genprog.ProgGen(rng)
@@ -83,6 +89,8 @@ def run(ctx):
         elif i >= len(mixed) and rng.random() < 0.3:
             p = " ".join(rng.choice(progs) for _ in range(rng.choice([2, 3, 4])))
         texts = [hostile_text(rng) for _ in range(5)] + [""]
+        if i < len(mixed):
+            texts += ["ab1", "x ab1 cd22 ", "a b 1", "banana band"]
         cases.append({"op": "json", "src_hex": vh.hexs(p), "texts_hex": [vh.hexs(t) for t in texts]})
         meta.append((p, texts))
     res = vh.run_cases(cases, shards=8)
